@@ -228,9 +228,9 @@ class History:
         return canon.digest(self.ops)
 
 
-COMPARED = ("load", "load_fo", "dis", "cli", "opc", "opmod", "std", "mdumps", "mloads")
+COMPARED = ("load", "load_fo", "dis", "cli", "opc", "opmod", "std", "mdumps", "mloads", "rewrite")
 FAULT_OPS = ("dis_abort", "load_abort")
-SLOT_OPS = ("load", "load_fo", "dis", "cli", "std", "dis_abort", "load_abort")
+SLOT_OPS = ("load", "load_fo", "dis", "cli", "std", "dis_abort", "load_abort", "rewrite")
 
 
 def plan_chain(i, seed, rng):
@@ -327,7 +327,7 @@ def plan_history(i):
         ops.append(["install", slot, sha, name])
 
     kinds_all = [("load", 10), ("load_fo", 3), ("dis", 14), ("opc", 5), ("opmod", 3), ("std", 5), ("mdumps", 3),
-                 ("mloads", 3), ("import", 3), ("install", 8)]
+                 ("mloads", 3), ("import", 3), ("install", 8), ("rewrite", 3)]
     if W["have_click"]:
         kinds_all.append(("cli", 3))
     if h.faulty:
@@ -340,8 +340,8 @@ def plan_history(i):
         if kind == "install":
             install(rng.below(nslots), rng.chance(2, 3))
             continue
-        if kind in ("load", "load_fo", "dis", "cli", "std", "dis_abort", "load_abort"):
-            need_small = kind in ("dis", "cli", "std", "dis_abort")
+        if kind in ("load", "load_fo", "dis", "cli", "std", "dis_abort", "load_abort", "rewrite"):
+            need_small = kind in ("dis", "cli", "std", "dis_abort", "rewrite")
             cands = [s for s in sorted(slots) if (slots[s]["small"] or slots[s]["faulted"] or not need_small)]
             if not cands:
                 install(rng.below(nslots), True)
@@ -358,10 +358,12 @@ def plan_history(i):
                 ops.append(["cli", s, st["sha"], st["name"], rng.choice(FORMATS)])
             elif kind == "std":
                 ops.append(["std", s, st["sha"], st["name"]])
+            elif kind == "rewrite":
+                ops.append(["rewrite", s, st["sha"], st["name"]])
             elif kind == "dis_abort":
                 k = rng.choice([1, 1, 2, 3, 4, 5, 8, 13, 21, rng.between(1, 60)])
                 ops.append(["dis_abort", s, st["sha"], st["name"], rng.choice(FORMATS), k,
-                            rng.choice(["EPIPE", "ENOSPC", "EIO"])])
+                            rng.choice(["EPIPE", "ENOSPC", "EIO", "CLOSED"])])
             else:
                 k = rng.choice([1, 2, 3, 4, 5, 6, 8, 12, 20, rng.between(1, 80)])
                 ops.append(["load_abort", s, st["sha"], st["name"], k])
@@ -447,6 +449,8 @@ class FailingWriter:
     def write(self, s):
         self.n += 1
         if self.n >= self.k:
+            if self.err == "CLOSED":
+                raise ValueError("I/O operation on closed file.")
             raise OSError(self.err, os.strerror(self.err))
         self.buf.append(s)
         return len(s)
@@ -559,6 +563,22 @@ def _do_op(op, detail):
                 se.append([opname, type(e).__name__])
         d["stack_effects"] = se
         res["ret"] = ["std", d]
+    elif kind == "rewrite":
+        from xdis.load import load_module, write_bytecode_file
+
+        name = op[3]
+        version, ts, magic_int, co, is_pypy, size, sip = load_module(name)
+        tmp = "rewritten.pyc"
+        try:
+            write_bytecode_file(tmp, co, magic_int, compilation_ts=1700000001, filesize=size or 0)
+            with open(tmp, "rb") as f:
+                data = f.read()
+            res["ret"] = ["rewritten", core.sha256_hex(data), canon.canon_load_result(load_module(tmp))]
+        finally:
+            try:
+                os.unlink(tmp)
+            except OSError:
+                pass
     elif kind == "mdumps":
         import xdis.marsh
 
@@ -582,7 +602,7 @@ def _do_op(op, detail):
         from xdis.disasm import disassemble_file
 
         name, fmt, k, en = op[3], op[4], op[5], op[6]
-        w = FailingWriter(k, getattr(errno, en))
+        w = FailingWriter(k, "CLOSED" if en == "CLOSED" else getattr(errno, en))
         try:
             disassemble_file(name, w, fmt)
         finally:
